@@ -5,6 +5,7 @@ import re
 from . import callgraph
 from .vflow import derived_pointers, access_path, strip_ptr_casts, fields_in_path
 from .build import AnalysisBroken
+from .ir import INT
 
 # contract table: name -> dict(w=[param idx written through], r=[read through], free=[idx], owned=bool, capt=[idx captured])
 EXT = {
@@ -159,7 +160,60 @@ class Effects:
             fl = fields_in_path(steps)
             if fl and fl[0][0] == 'fragment_header_s':
                 out.append((ins, tuple(x[1] for x in fl)))
+        # byte-level writes (`memcpy(buf + offsetof(fragment_header_t, meta.idx), &v, 4)`) into a buffer this function also
+        # addresses as a fragment header: the constant offset and size name the field
+        bases = {strip_ptr_casts(f, bc.ops[0]) for bc in f.insts() if bc.op == 'bitcast' and bc.ty and 'fragment_header_s*' in bc.ty.replace(' ', '')}
+        if bases:
+            for ins in f.insts():
+                dst = size = None
+                if ins.op == 'call' and (ins.callee or '').startswith(('@llvm.memcpy', '@llvm.memset')) and INT.match(ins.ops[2] if len(ins.ops) > 2 else ''):
+                    dst, size = ins.ops[0], int(ins.ops[2])
+                elif ins.op == 'store' and ins.ty in ('i8', 'i16', 'i32', 'i64'):
+                    dst, size = ins.ops[1], int(ins.ty[1:]) // 8
+                if dst is None:
+                    continue
+                x, off, n_ = dst, 0, 0
+                d = f.defs.get(x)
+                while d is not None and n_ < 8:
+                    if d.op == 'bitcast':
+                        x = d.ops[0]
+                    elif d.op == 'getelementptr' and d.gep_base_ty == 'i8' and len(d.ops) == 2 and INT.match(d.ops[1]):
+                        off += int(d.ops[1]); x = d.ops[0]
+                    else:
+                        break
+                    d = f.defs.get(x); n_ += 1
+                if x in bases and (off or n_):
+                    path = self._field_at('fragment_header_s', off, size)
+                    if path and not any(o_ is ins for o_, _ in out):
+                        out.append((ins, path))
         return out
+
+    def _field_at(self, cname, byteoff, size, depth=0):
+        """name path of the member of struct cname that starts at byte offset `byteoff` and has `size` bytes"""
+        fields = self.prog.struct_fields(cname) or []
+        for name, boff, bsize, tref in fields:
+            lo, hi = boff // 8, (boff + bsize) // 8
+            if lo == byteoff and hi - lo == size and not self._struct_of(tref):
+                return (name,)
+            if lo <= byteoff < hi and depth < 3:
+                sub = self._struct_of(tref)
+                if sub:
+                    rest = self._field_at(sub, byteoff - lo, size, depth + 1)
+                    if rest:
+                        return (name,) + rest
+        return None
+
+    def _struct_of(self, tref):
+        for m in self.prog.mods:
+            fdesc = m.md_fields(tref) if tref else {}
+            n = 0
+            while fdesc and fdesc.get('tag') in ('DW_TAG_typedef', 'DW_TAG_const_type', 'DW_TAG_volatile_type') and n < 6:
+                fdesc = m.md_fields(fdesc.get('baseType', '')); n += 1
+            if fdesc and fdesc.get('tag') == 'DW_TAG_structure_type' and fdesc.get('name'):
+                return fdesc['name'].strip('"')
+            if fdesc:
+                return None
+        return None
 
 def get(prog):
     e = prog.__dict__.get('_eff')
